@@ -200,7 +200,7 @@ def _producer_sig(fn, t):
         return ""
     names = set()
     seen = set()
-    work = [t["args"][0]]
+    work = list(t["args"])   # what every argument was computed by (repeat_n('*', mod10(len)) is recognised by mod10)
     g = 0
     while work and g < 12:
         g += 1
@@ -419,7 +419,7 @@ PORTABLE_GUARDS = {
     "operator-table-total", "writeval-never-errs", "push-rhs-arms", "to-digit-radix-const", "radix-range-checked",
     "resize-after-try-reserve", "reserve-diff-nonneg", "array-after-coerce", "compare-same-kind", "take-first-len-1",
     "listbuilder-nonempty", "offset-from-guarded", "compute-value-no-dot", "as-text-ascii", "parameter-seps-capacity",
-    "inc-null-replaced", "capitalized-callback-infallible", "join-elements-checked", "emplace-var-entry", "greedy-suffix-peeked",
+    "inc-null-replaced", "capitalized-callback-infallible", "join-elements-checked", "emplace-var-entry", "greedy-suffix-peeked", "pop-expr-back-set",
 }
 
 
